@@ -117,12 +117,12 @@ func (t *Term) IsConst() bool { return t.Op == OConst }
 
 // Store is a per-executor hash-consing table.
 type Store struct {
-	tab   map[string]*Term
-	terms []*Term
-	vars  map[string]*Term
+	tab     map[string]*Term
+	terms   []*Term
+	vars    map[string]*Term
 	intBits map[int]int // signed bit bound of 64-bit terms produced by the IntFloat rewrite
-	True  *Term
-	False *Term
+	True    *Term
+	False   *Term
 }
 
 func NewStore() *Store {
